@@ -931,6 +931,248 @@ pub fn observe_carried_record(a: &Value, oc: &Value, cs: &[Value], b: &Value, ca
 }
 
 //----------------------------------------------------------------------------
+// records across representations of their data (Order.tla, DataReps): the two
+// sides of ==, partial_cmp and canonical_cmp hold owner, names and octets
+// differently (parsed inside a message, Vec, Bytes); the data type is one of
+// the enums, UnknownRecordData, or a RecordData implemented outside the
+// library that answers `xans` for two values of different types (the
+// contract of CanonicalOrd for record data is the order within one RRset).
+
+/// Record data implemented outside the library: opaque octets of any type.
+#[derive(Clone, Debug)]
+pub struct ExtData {
+    rtype: domain::base::iana::Rtype,
+    data: Vec<u8>,
+    xans: i64,
+}
+impl domain::base::rdata::RecordData for ExtData {
+    fn rtype(&self) -> domain::base::iana::Rtype {
+        self.rtype
+    }
+}
+impl ComposeRecordData for ExtData {
+    fn rdlen(&self, _compress: bool) -> Option<u16> {
+        Some(self.data.len() as u16)
+    }
+    fn compose_rdata<T: domain::base::wire::Composer + ?Sized>(&self, t: &mut T) -> Result<(), T::AppendError> {
+        t.append_slice(&self.data)
+    }
+    fn compose_canonical_rdata<T: domain::base::wire::Composer + ?Sized>(
+        &self,
+        t: &mut T,
+    ) -> Result<(), T::AppendError> {
+        t.append_slice(&self.data)
+    }
+}
+impl PartialEq for ExtData {
+    fn eq(&self, o: &Self) -> bool {
+        self.rtype == o.rtype && self.data == o.data
+    }
+}
+impl std::hash::Hash for ExtData {
+    fn hash<H: std::hash::Hasher>(&self, st: &mut H) {
+        self.rtype.hash(st);
+        self.data.hash(st);
+    }
+}
+impl PartialOrd for ExtData {
+    fn partial_cmp(&self, o: &Self) -> Option<Ordering> {
+        Some(self.rtype.cmp(&o.rtype).then_with(|| self.data.cmp(&o.data)))
+    }
+}
+impl CanonicalOrd for ExtData {
+    /// RFC 4034 6.3 within one type; across types what the case says
+    fn canonical_cmp(&self, o: &Self) -> Ordering {
+        let of = |x: i64| match x {
+            x if x < 0 => Ordering::Less,
+            0 => Ordering::Equal,
+            _ => Ordering::Greater,
+        };
+        match self.rtype.cmp(&o.rtype) {
+            Ordering::Equal => self.data.cmp(&o.data),
+            Ordering::Less => of(self.xans),
+            Ordering::Greater => of(-self.xans),
+        }
+    }
+}
+
+fn xpair<A, B>(x: &A, y: &B, hx: Option<u64>, hy: Option<u64>, what: &str, canonfree: bool, ag: &mut Agree)
+where
+    A: PartialEq<B> + PartialOrd<B> + CanonicalOrd<B>,
+    B: PartialEq<A> + PartialOrd<A> + CanonicalOrd<A>,
+{
+    let e = x == y;
+    ag.put("eq", json!(e), &format!("{what}: =="));
+    ag.put("eq", json!(y == x), &format!("{what}: == reversed"));
+    let (p, q) = (x.partial_cmp(y), y.partial_cmp(x));
+    ag.put("cmp0", json!(p == Some(Ordering::Equal)), &format!("{what}: partial_cmp"));
+    if p.map(sgn) != q.map(|o| -sgn(o)) {
+        ag.issues.push(format!("{what}: partial_cmp not antisymmetric"));
+    }
+    let (c, d) = (sgn(x.canonical_cmp(y)), -sgn(y.canonical_cmp(x)));
+    let v = |c: i64| if canonfree { json!("free") } else { json!(c) };
+    ag.put("canon", v(c), &format!("{what}: canonical_cmp"));
+    ag.put("canon", v(d), &format!("{what}: canonical_cmp reversed"));
+    if c != d {
+        ag.issues.push(format!("{what}: canonical_cmp not antisymmetric"));
+    }
+    if let (Some(a), Some(b)) = (hx, hy) {
+        ag.put("hash_ok", json!(!e || a == b), &format!("{what}: hash"));
+    }
+}
+/// every holding of the first record against every holding of the second
+macro_rules! xgrid {
+    ($ag:expr, $cf:expr, [$(($nx:expr, $x:expr, $hx:expr)),*], $ys:tt) => {
+        $( xgrid!(@row $ag, $cf, $nx, $x, $hx, $ys); )*
+    };
+    (@row $ag:expr, $cf:expr, $nx:expr, $x:expr, $hx:expr, [$(($ny:expr, $y:expr, $hy:expr)),*]) => {
+        $( xpair($x, $y, $hx, $hy, &format!("{} vs {}", $nx, $ny), $cf, $ag); )*
+    };
+}
+fn xfree(ag: &mut Agree, free: bool) {
+    // where == is not pinned only its coherence with the order is demanded
+    if free && ag.vals.get("eq") == ag.vals.get("cmp0") {
+        ag.vals.insert("eq", json!("free"));
+        ag.vals.insert("cmp0", json!("free"));
+    }
+}
+
+pub fn observe_xrecord(a: &Value, b: &Value, rep: &str, xans: i64, eqfree: bool, canonfree: bool) -> Value {
+    use domain::base::iana::Rtype;
+    use domain::base::rdata::UnknownRecordData;
+    let mut ag = Agree::new();
+    let (ma, mb) = (crate::rdata::order::record_msg(a), crate::rdata::order::record_msg(b));
+    let (ma_, mb_) = (Message::from_slice(&ma).unwrap(), Message::from_slice(&mb).unwrap());
+    let (pa, pb) = match (parse_all(ma_), parse_all(mb_)) {
+        (Ok(x), Ok(y)) => (x, y),
+        _ => return json!({"parse": "err"}),
+    };
+    let ag_ = &mut ag;
+    ag_.put("hash_ok", json!(true), "");
+    type VName = Name<Vec<u8>>;
+    type BName = Name<Bytes>;
+    match rep {
+        "all" => {
+            type V = Record<VName, AllRecordData<Vec<u8>, VName>>;
+            type B = Record<BName, AllRecordData<Bytes, BName>>;
+            fn own(p: &crate::rdata::AllRec<'_>) -> Option<(V, B)> {
+                let v: V = p.clone().try_flatten_into().ok()?;
+                let b: B = v.clone().try_flatten_into().ok()?;
+                Some((v, b))
+            }
+            let ((va, ba), (vb, bb)) = match (own(&pa), own(&pb)) {
+                (Some(x), Some(y)) => (x, y),
+                _ => return json!({"bad_case": "record does not flatten"}),
+            };
+            // owner owned, data still inside the message; and the reverse
+            let (xa, xb) = (
+                Record::new(ba.owner().clone(), pa.class(), pa.ttl(), pa.data().clone()),
+                Record::new(bb.owner().clone(), pb.class(), pb.ttl(), pb.data().clone()),
+            );
+            let (ya, yb) = (
+                Record::new(pa.owner().clone(), pa.class(), pa.ttl(), va.data().clone()),
+                Record::new(pb.owner().clone(), pb.class(), pb.ttl(), bb.data().clone()),
+            );
+            xgrid!(ag_, canonfree,
+                [("parsed", &pa, Some(h(&pa))), ("Vec", &va, Some(h(&va))), ("Bytes", &ba, Some(h(&ba))),
+                 ("Bytes owner+parsed data", &xa, Some(h(&xa))), ("parsed owner+Vec data", &ya, Some(h(&ya)))],
+                [("parsed", &pb, Some(h(&pb))), ("Vec", &vb, Some(h(&vb))), ("Bytes", &bb, Some(h(&bb))),
+                 ("Bytes owner+parsed data", &xb, Some(h(&xb))), ("parsed owner+Bytes data", &yb, Some(h(&yb)))]);
+        }
+        "zone" => {
+            type Z<'m> = Record<ParsedName<&'m [u8]>, crate::rdata::ZoneData<'m>>;
+            type V = Record<VName, ZoneRecordData<Vec<u8>, VName>>;
+            type B = Record<BName, ZoneRecordData<Bytes, BName>>;
+            fn zone<'m>(m: &'m Message<[u8]>) -> Option<Z<'m>> {
+                m.answer().ok()?.next()?.ok()?.into_record().ok()?
+            }
+            let (za, zb): (Z<'_>, Z<'_>) = match (zone(ma_), zone(mb_)) {
+                (Some(x), Some(y)) => (x, y),
+                _ => return json!({"bad_case": "ZoneRecordData did not parse"}),
+            };
+            fn own(p: &Z<'_>) -> Option<(V, B)> {
+                let v: V = p.clone().try_flatten_into().ok()?;
+                let b: B = v.clone().try_flatten_into().ok()?;
+                Some((v, b))
+            }
+            let ((va, ba), (vb, bb)) = match (own(&za), own(&zb)) {
+                (Some(x), Some(y)) => (x, y),
+                _ => return json!({"bad_case": "record does not flatten"}),
+            };
+            let xa = Record::new(ba.owner().clone(), za.class(), za.ttl(), za.data().clone());
+            let yb = Record::new(zb.owner().clone(), zb.class(), zb.ttl(), vb.data().clone());
+            xgrid!(ag_, canonfree,
+                [("parsed", &za, Some(h(&za))), ("Vec", &va, Some(h(&va))), ("Bytes", &ba, Some(h(&ba))),
+                 ("Bytes owner+parsed data", &xa, Some(h(&xa)))],
+                [("parsed", &zb, Some(h(&zb))), ("Vec", &vb, Some(h(&vb))), ("Bytes", &bb, Some(h(&bb))),
+                 ("parsed owner+Vec data", &yb, Some(h(&yb)))]);
+        }
+        "unknown" | "ext" => {
+            let (rda, rdb) = (verif_harness::common::bytes_of(&a["rd"]), verif_harness::common::bytes_of(&b["rd"]));
+            let (ta, tb) = (pa.rtype(), pb.rtype());
+            let (oa, ob): (VName, VName) = (pa.owner().to_name(), pb.owner().to_name());
+            let (ba, bb): (BName, BName) = (pa.owner().to_name(), pb.owner().to_name());
+            if rep == "unknown" {
+                let u = |t: Rtype, d: &[u8]| {
+                    (
+                        UnknownRecordData::from_octets(t, leak_bytes(d.to_vec())).unwrap(),
+                        UnknownRecordData::from_octets(t, d.to_vec()).unwrap(),
+                        UnknownRecordData::from_octets(t, Bytes::copy_from_slice(d)).unwrap(),
+                    )
+                };
+                let ((sa, va, ya), (sb, vb, yb)) = (u(ta, &rda), u(tb, &rdb));
+                let (r1, r2, r3) = (
+                    Record::new(pa.owner().clone(), pa.class(), pa.ttl(), sa),
+                    Record::new(oa.clone(), pa.class(), pa.ttl(), va.clone()),
+                    Record::new(ba.clone(), pa.class(), pa.ttl(), ya),
+                );
+                let r4 = Record::new(pa.owner().clone(), pa.class(), pa.ttl(), va);
+                let (s1, s2, s3) = (
+                    Record::new(pb.owner().clone(), pb.class(), pb.ttl(), sb),
+                    Record::new(ob.clone(), pb.class(), pb.ttl(), vb),
+                    Record::new(bb.clone(), pb.class(), pb.ttl(), yb.clone()),
+                );
+                let s4 = Record::new(ob.clone(), pb.class(), pb.ttl(), yb);
+                // (UnknownRecordData offers no Hash)
+                xgrid!(ag_, canonfree,
+                    [("parsed owner+slice", &r1, None), ("Vec", &r2, None), ("Bytes", &r3, None), ("parsed owner+Vec", &r4, None)],
+                    [("parsed owner+slice", &s1, None), ("Vec", &s2, None), ("Bytes", &s3, None), ("Vec owner+Bytes", &s4, None)]);
+                // the data on its own: within one type the order of the octets
+                if ta == tb {
+                    let (da, db) = (r1.data(), s3.data());
+                    // (it decides the order of the records where class and owner agree)
+                    if pa.class() == pb.class() && pa.owner().name_eq(pb.owner()) {
+                        ag_.put("canon", json!(sgn(da.canonical_cmp(db))), "UnknownRecordData slice vs Bytes: canonical_cmp");
+                    }
+                    if (da == db) != (da.canonical_cmp(db) == Ordering::Equal)
+                        || da.partial_cmp(db) != Some(da.canonical_cmp(db)) {
+                        ag_.issues.push("UnknownRecordData: ==, partial_cmp and canonical_cmp incoherent".into());
+                    }
+                }
+            } else {
+                let e = |t: Rtype, d: &[u8]| ExtData { rtype: t, data: d.to_vec(), xans };
+                let (r1, r2, r3) = (
+                    Record::new(pa.owner().clone(), pa.class(), pa.ttl(), e(ta, &rda)),
+                    Record::new(oa, pa.class(), pa.ttl(), e(ta, &rda)),
+                    Record::new(ba, pa.class(), pa.ttl(), e(ta, &rda)),
+                );
+                let (s1, s2, s3) = (
+                    Record::new(pb.owner().clone(), pb.class(), pb.ttl(), e(tb, &rdb)),
+                    Record::new(ob, pb.class(), pb.ttl(), e(tb, &rdb)),
+                    Record::new(bb, pb.class(), pb.ttl(), e(tb, &rdb)),
+                );
+                xgrid!(ag_, canonfree,
+                    [("parsed owner", &r1, Some(h(&r1))), ("Vec owner", &r2, Some(h(&r2))), ("Bytes owner", &r3, Some(h(&r3)))],
+                    [("parsed owner", &s1, Some(h(&s1))), ("Vec owner", &s2, Some(h(&s2))), ("Bytes owner", &s3, Some(h(&s3)))]);
+            }
+        }
+        _ => return json!({"bad_case": "unknown representation"}),
+    }
+    xfree(&mut ag, eqfree);
+    ag.finish()
+}
+
+//----------------------------------------------------------------------------
 // random carriers (recorder)
 
 /// a random carrier term denoting the name with these labels
